@@ -30,13 +30,24 @@ Definition trk0 : trk := mkTrk MIN_DT 0.
 
 Inductive tsd :=
 | Leaf (k : trk) (v : Z)
-| Fix (k : trk) (fk : Z) (bits : Z) (kids : list tsd)   (* fk: 1 = TSB, 2 = TSL; bits: the TSB value's field-valid bits *)
+| Fix (k : trk) (fk : Z) (bits : Z) (kids : list tsd)   (* fk: 1 = TSB, 3 = TSB with projected value, 2 = TSL; bits: a plain TSB value's field-valid bits *)
 | Dict (k : trk) (elem : shape) (kids : list (Z * tsd)).   (* live keys, sorted by key *)
+
+(* A TSB whose sub-tree holds a dictionary presents a PROJECTED value surface (field validity is read
+   from the children); otherwise its value carries sticky per-field validity bits
+   (FixedTSDataContext::projected_value_surface). *)
+Fixpoint has_dict (s : shape) : bool :=
+  match s with
+  | STS => false
+  | STSB fs => existsb has_dict fs
+  | STSL _ e => has_dict e
+  | STSD _ => true
+  end.
 
 Fixpoint init (s : shape) : tsd :=
   match s with
   | STS => Leaf trk0 0
-  | STSB fs => Fix trk0 1 0 (map init fs)
+  | STSB fs => Fix trk0 (if existsb has_dict fs then 3 else 1) 0 (map init fs)
   | STSL n e => Fix trk0 2 0 (repeat (init e) n)
   | STSD e => Dict trk0 e []
   end.
@@ -448,8 +459,17 @@ Definition obs_line (who t : Z) (p : path) (vld md : bool) (l v : Z) (hd : bool)
    modified blend the link's tracking).  TSInputView::delta_value: at EVERY position of a
    target link, when link.tracking.last_modified_time > data.last_modified_time() the "delta"
    handed back is value().  *)
+Fixpoint valid_mask (i : nat) (kids : list tsd) : Z :=
+  match kids with
+  | [] => 0
+  | c :: r => (if valid c then Z.shiftl 1 (Z.of_nat i) else 0) + valid_mask (S i) r
+  end.
 Definition sampled_dv (x : tsd) : Z :=
-  match x with Leaf _ v => v | Fix _ fk bits _ => if fk =? 1 then bits else -2 | Dict _ _ _ => -2 end.
+  match x with
+  | Leaf _ v => v
+  | Fix _ fk bits kids => if fk =? 1 then bits else if fk =? 3 then valid_mask 0 kids else -2
+  | Dict _ _ _ => -2
+  end.
 
 Definition node_line (who t : Z) (p : path) (link : option Z) (root : bool) (x : tsd) : line :=
   match link with
